@@ -96,3 +96,23 @@ VARIANTS += [
  V("c27-k1-blob-offset-updated-alone", "C27", "C27.K1", "sstable/blob/fetcher.go",
    "		h := cr.indexBlock.dec.BlockHandle(physicalBlockIndex)\n", "		if cr.currentValueBlock.loaded && cr.currentValueBlock.physicalIndex == physicalBlockIndex {\n			cr.currentValueBlock.valueIDOffset = valueIDOffset\n			return nil, nil\n		}\n		h := cr.indexBlock.dec.BlockHandle(physicalBlockIndex)\n"),
 ]
+VARIANTS += [
+ V("c42-l4-readstate-loaded-without-lock", "C42", "C42.L4", "read_state.go",
+   "	d.readState.RLock()\n	state := d.readState.val\n", "	state := d.readState.val\n	d.readState.RLock()\n"),
+]
+VARIANTS += [
+ V("c42-b1-early-return-keeps-db-mu", "C42", "C42.B1", "db.go",
+   "	n := len(compactions)\n	if n == 0 {\n		d.mu.Unlock()\n		return nil\n	}", "	n := len(compactions)\n	if n == 0 {\n		return nil\n	}"),
+ V("c42-b1-metrics-keeps-manifest-lock", "C42", "C42.B1", "db.go",
+   "	blobStats, _ := d.mu.versions.latest.blobFiles.Stats()\n	d.mu.versions.logUnlock()\n", "	blobStats, _ := d.mu.versions.latest.blobFiles.Stats()\n"),
+]
+VARIANTS += [
+ V("c18-g4-skip-chunk-before-crc", "C18", "C18.G4", "record/record.go",
+   "			data := r.buf[r.begin-headerSize+6 : r.end]\n			if checksum != crc.New(data).Value() {", "			if wantFirst && chunkPosition != fullChunkPosition && chunkPosition != firstChunkPosition {\n				continue\n			}\n			data := r.buf[r.begin-headerSize+6 : r.end]\n			if checksum != crc.New(data).Value() {"),
+ V("c19-g4-skip-chunk-before-crc", "C19", "C18.G4", "record/record.go",
+   "			data := r.buf[r.begin-headerSize+6 : r.end]\n			if checksum != crc.New(data).Value() {", "			if wantFirst && chunkPosition != fullChunkPosition && chunkPosition != firstChunkPosition {\n				continue\n			}\n			data := r.buf[r.begin-headerSize+6 : r.end]\n			if checksum != crc.New(data).Value() {"),
+ V("c42-l2-efos-close-takes-dbmu-under-esmu", "C42", "C42.L2", "snapshot.go",
+   "func (es *EventuallyFileOnlySnapshot) hasTransitioned() bool {\n	es.mu.Lock()\n	defer es.mu.Unlock()", "func (es *EventuallyFileOnlySnapshot) hasTransitioned() bool {\n	es.mu.Lock()\n	defer es.mu.Unlock()\n	es.db.mu.Lock()\n	es.db.mu.Unlock()"),
+ V("c36-n1-overlap-probe-ignores-read-error", "C36", "C43.N1", "internal/overlap/checker.go",
+   "		if kv == nil && points.Error() != nil {\n			return false, points.Error()\n		}\n", ""),
+]
